@@ -72,6 +72,24 @@ var grid = func() []gridIRI {
 	return out
 }()
 
+// gridNeighbours: for every grid IRI the grid IRIs that share its host and path under the reference normaliser (the ones that
+// are equivalent to it and the ones that differ from it in the query only)
+var gridNeighbours = func() [][]int {
+	groups := map[string][]int{}
+	hp := func(g gridIRI) string {
+		k := g.Key[1]
+		return k[:strings.LastIndexByte(k, '|')]
+	}
+	for i, g := range grid {
+		groups[hp(g)] = append(groups[hp(g)], i)
+	}
+	out := make([][]int, len(grid))
+	for i, g := range grid {
+		out[i] = groups[hp(g)]
+	}
+	return out
+}()
+
 func iriClass(s string) string {
 	u, err := url.Parse(s)
 	if err != nil {
@@ -163,7 +181,7 @@ func init() {
 	n := len(grid)
 	Register(&Prop{
 		ID: "C14",
-		Rule: fmt.Sprintf("exhaustive grid: %d schemes x %d hosts(+port, case) x %d paths (empty, /, trailing slash, case, dot segments, doubled slashes) x %d queries (none, empty, single, reordered pair, repeated key with equal/differing/swapped values) x %d fragments = %d IRIs; every ordered pair x both scheme flags must satisfy a.Equals(b,cs) <=> refKey(a,cs)=refKey(b,cs) (hence reflexive, symmetric, transitive); IRIs.Contains must agree with exists-member-Equals; a second grid of %d IRIs whose paths and queries hold percent-escaped reserved characters (%%23 %%3F %%2F %%25 %%20, escaped UTF-8) under the same oracle; a third grid of the well-known constants (public collection, ActivityStreams and security context addresses) in 11 presentations each, under the same oracle for Equals and for membership in IRI and item lists; "+
+		Rule: fmt.Sprintf("exhaustive grid: %d schemes x %d hosts(+port, case) x %d paths (empty, /, trailing slash, case, dot segments, doubled slashes) x %d queries (none, empty, single, reordered pair, repeated key with equal/differing/swapped values) x %d fragments = %d IRIs; every ordered pair x both scheme flags must satisfy a.Equals(b,cs) <=> refKey(a,cs)=refKey(b,cs) (hence reflexive, symmetric, transitive); IRIs.Contains must agree with exists-member-Equals on sampled lists, and for every grid IRI a list holding it (IRI list and item list) must contain exactly the grid IRIs of the same host and path that the reference calls equivalent; a second grid of %d IRIs whose paths and queries hold percent-escaped reserved characters (%%23 %%3F %%2F %%25 %%20, escaped UTF-8) under the same oracle; a third grid of the well-known constants (public collection, ActivityStreams and security context addresses) in 11 presentations each, under the same oracle for Equals and for membership in IRI and item lists; "+
 			"seeded random strings and near-URLs are held to reflexivity and symmetry; one case = one row of the grid (a fixed left IRI against all right IRIs) or one random pair; distinct = row / pair; non-trivial = every row (each holds equal and unequal pairs)",
 			len(gridSchemes), len(gridHosts), len(gridPaths), len(gridQueries), len(gridFrags), n, len(escGrid)),
 		Layers: func(tier string) []Layer {
@@ -226,6 +244,29 @@ func init() {
 							}
 						})
 					}
+				}},
+				{Name: "membership-neighbours", N: len(grid), Exhaustive: true, Run: func(c *Ctx, idx int) {
+					// a list holding one grid IRI (in an IRI list and in an item list, next to two unrelated members), probed with
+					// every grid IRI of the same host and path: present exactly when the reference normaliser says equivalent
+					a := grid[idx]
+					c.Distinct("member|"+a.S, true)
+					lst := vocab.IRIs{"https://unrelated.example/first", vocab.IRI(a.S), "https://unrelated.example/last"}
+					il := vocab.ItemCollection{vocab.IRI("https://unrelated.example/first"), vocab.IRI(a.S), &vocab.Object{ID: "https://unrelated.example/last", Type: vocab.NoteType}}
+					c.Pending("IRIs.Contains over the neighbours of " + a.S)
+					c.Guard("IRIs.Contains", func() {
+						for _, j := range gridNeighbours[idx] {
+							b := grid[j]
+							want := a.Key[1] == b.Key[1]
+							if got := lst.Contains(vocab.IRI(b.S)); got != want {
+								c.Fail(fmt.Sprintf("iri|Contains|%s|%s|neighbour", iriClass(a.S), iriClass(b.S)), fmt.Sprintf("IRIs%v.Contains(%q) = %v, reference normaliser says %v", lst, b.S, got, want), map[string]any{"list": lst, "x": b.S})
+							}
+							if got := il.Contains(vocab.IRI(b.S)); got != want {
+								c.Fail(fmt.Sprintf("iri|ItemCollection.Contains|%s|%s|neighbour", iriClass(a.S), iriClass(b.S)), fmt.Sprintf("ItemCollection%v.Contains(%q) = %v, reference normaliser says %v", il, b.S, got, want), map[string]any{"x": b.S})
+							}
+							c.Count("contains-checks", 2)
+						}
+					})
+					c.Eval(2 * len(gridNeighbours[idx]))
 				}},
 				{Name: "escaped-paths", N: len(escGrid), Exhaustive: true, Run: func(c *Ctx, idx int) {
 					a := escGrid[idx]
